@@ -9,7 +9,7 @@ m = {
  "hooks": {"guard": "FDAPY_VERIF", "enable": "export FDAPY_VERIF=1 (no source hooks are needed: the harness wraps attributes of the imported package)",
            "baseline_off_cmd": BASE, "source_commits": [], "add_only": True},
  "engines": [{"name": "coq-proof+correspondence", "path": "check", "serves_properties": [c["id"] for c in CHECKS],
-              "kind_free_text": "Coq 8.16 theorems about a hand-written Gallina model (R instance), executable Q instance tied to /repo by differential runs (vm_compute)"}],
+              "kind_free_text": "Coq 8.16 theorems about a Gallina model (R instance): hand-written, plus seven small functions TRANSLATED from /repo's source text on every run (coq/Gen, harness/reflect.py) and proved equal to the model; executable Q instance tied to /repo by differential runs (vm_compute)"}],
  "checks": [],
  "notes": "See DESIGN.md. Each check: rebuilds the Coq development, re-checks Props/<id>.v (Print Assumptions harvested), runs implementation and model on the same generated inputs, runs direct property monitors; known findings in known_findings.json.",
  "not_applicable": NOT_APPLICABLE,
